@@ -265,9 +265,18 @@ func (l *lexer) lexStringLiteral(yylval *yySymType) int {
 	for i < len(l.Expression) {
 		r, w := utf8.DecodeRuneInString(l.Expression[i:])
 		i += w
-		if r == '"' {
+		if r == '\\' && i < len(l.Expression) {
+			// An escaped character, as written by UnparseString, can't end
+			// the string.
+			_, w = utf8.DecodeRuneInString(l.Expression[i:])
+			i += w
+		} else if r == '"' {
 			e, token := l.consume(i)
-			e.AnyExpression = b6.NewStringExpression(token[1 : len(token)-1]).AnyExpression
+			s, err := strconv.Unquote(token)
+			if err != nil {
+				s = token[1 : len(token)-1]
+			}
+			e.AnyExpression = b6.NewStringExpression(s).AnyExpression
 			yylval.e = e
 			return STRING
 		}
